@@ -310,9 +310,11 @@ Section Exec.
                 match jt_offsets tb with
                 | [] => LFault JumpTableOOB
                 | o0 :: _ =>
-                    (* (val - min) as usize, wrapping *)
-                    let idx := ((to_i64 v - jt_min tb) mod 18446744073709551616)%Z in
-                    LNext (if (idx <? Z.of_nat (length (jt_offsets tb)))%Z
+                    (* vm.rs since 9f2ab74 (fix J1): val.checked_sub(table.min), then usize::try_from: an index that does not
+                       exist (below the smallest case, above the largest, or not representable) takes the default offset, the
+                       last entry.  (Before the repair: `(val - min) as usize`, which overflowed for val = i64::MIN.) *)
+                    let idx := (to_i64 v - jt_min tb)%Z in
+                    LNext (if ((0 <=? idx) && (idx <? Z.of_nat (length (jt_offsets tb))))%Z
                            then nth (Z.to_nat idx) (jt_offsets tb) o0
                            else last (jt_offsets tb) o0) m
                 end
